@@ -18,6 +18,11 @@ mod simd_src {
     include!(concat!(env!("OUT_DIR"), "/simd_src.rs"));
 }
 
+/// `simd::sum_squares_f32` of the build-time copy of the current simd.rs
+pub fn sum_squares(v: &[f32]) -> f32 {
+    simd_src::sum_squares_f32(v)
+}
+
 const PAGE: usize = 4096;
 const REGION: usize = 1 << 38; // 256 GiB of address space, never reused
 
